@@ -28,6 +28,25 @@ size_t g_reasm;              /* reassembled packets handed to the result list */
 const uint8_t *g_src;        /* message bytes the most recently constructed Packet was built from */
 uint8_t g0_present; uint16_t g0_seq; uint8_t g0_segtype; uint8_t g0_ver; uint8_t g0_mtype; size_t g0_n;   /* slot at entry */
 
+/* ---- status tracker (C16) ---- */
+size_t g_found;           /* ghost witness: position a lookup returned */
+uint32_t g_key0;          /* ghost snapshot: interface key at g_i on entry */
+size_t g_d;               /* device-level ghost index for the lookup witness (never assigned) */
+size_t g_dfound;          /* device-level ghost witness: position the device lookup returned */
+uint16_t g_dkey0;         /* ghost snapshot: device key at g_i on entry */
+uint32_t g_lastkey;       /* ghost snapshot: key of the last entry on entry (swap-with-last removal) */
+/* Status::update replaces DeviceStatus::update.  The interface vector is a private member of DeviceStatus: its shape and the distinctness of its ids are
+ * established and kept by DeviceStatus's own methods (proved in their own harnesses) and cannot be touched from Status (C++ access control), so -- as for
+ * the other owning classes (DESIGN.md, public/private contract parts) -- those clauses are switched off where the member is replaced in this outside caller,
+ * and the array CONTENTS are left out of the replaced frame (Status::update and its contract never read them; cbmc 6.11 runs out of memory otherwise). */
+#ifdef ST_NESTED_ABSTRACT
+#define ST_NESTED 0
+#define ST_PRIV(x) 1
+#else
+#define ST_NESTED 1
+#define ST_PRIV(x) (x)
+#endif
+
 /* ---- value semantics (C14) ---- */
 size_t g_w;               /* ghost witness: index of a differing byte when an equality returns false */
 #define VAL_PAYLOAD(p)   (__CPROVER_is_fresh((p), sizeof(*(p))) && (p)->payloadData.n <= VEC_MAX && CEX_LIMIT((p)->payloadData.n) && __CPROVER_is_fresh((p)->payloadData.d, CEX_CAP((p)->payloadData.n)))
